@@ -20,12 +20,23 @@ enum Kind {
   RebindIpc,
   /// connect to a port nobody listens on; while the connecter retries: close / term
   CloseWhileRetrying { term_only: bool },
+  /// as above with a long retry interval, and something unrelated happens on the context's event bus
+  /// while the connecter waits (another socket closes / binds / gets a peer): close / term must not wait
+  /// for the interval to run out
+  CloseWhileRetryingAfterBusEvent { term_only: bool, event: BusEvent },
   /// connect to a raw listener that accepts and stays silent (handshake pending): close / term
   CloseWhileHandshaking { term_only: bool },
   /// established connection with a blocked recv in another task: term
   TermWithBlockedRecv,
   /// connect() to a listener whose accept queue is full (the TCP connect itself hangs): close / term
   CloseWhileConnecting { term_only: bool },
+}
+
+#[derive(Clone, Copy, Debug, PartialEq, Eq)]
+enum BusEvent {
+  OtherSocketCloses,
+  OtherSocketBinds,
+  OtherSocketsConnectInproc,
 }
 
 #[derive(Clone, Copy, Debug)]
@@ -192,6 +203,55 @@ async fn run_cell(c: Cell) -> Out {
         }
       }
     }
+    Kind::CloseWhileRetryingAfterBusEvent { term_only, event } => {
+      let Some(port) = free_port() else {
+        out.skipped = Some("no port".into());
+        return out;
+      };
+      let uri = format!("tcp://127.0.0.1:{}", port);
+      let a = mk(&ctx, ta, c.reconnect_ivl).await;
+      let _ = a.connect(&uri).await;
+      // the first attempt is refused at once; the connecter now sits in its retry wait
+      tokio::time::sleep(Duration::from_millis(300)).await;
+      let mut others = vec![];
+      match event {
+        BusEvent::OtherSocketCloses => {
+          let o1 = mk(&ctx, SocketType::Push, 0).await;
+          let _ = tokio::time::timeout(Duration::from_secs(5), o1.close()).await;
+        }
+        BusEvent::OtherSocketBinds => {
+          let o1 = mk(&ctx, SocketType::Pull, 0).await;
+          let _ = o1.bind("tcp://127.0.0.1:0").await;
+          others.push(o1);
+        }
+        BusEvent::OtherSocketsConnectInproc => {
+          let name = format!("inproc://c16-bus-{}", port);
+          let o1 = mk(&ctx, SocketType::Pull, 0).await;
+          let o2 = mk(&ctx, SocketType::Push, 0).await;
+          let _ = o1.bind(&name).await;
+          let _ = o2.connect(&name).await;
+          let _ = o2.send(msg(b"x", false)).await;
+          others.push(o1);
+          others.push(o2);
+        }
+      }
+      tokio::time::sleep(Duration::from_millis(300)).await;
+      if !term_only {
+        timed_close(&a, &mut out).await;
+        // the connecter is a child of the closed socket: it must be gone now, not when its interval ends
+        let t = Instant::now();
+        let base = others.len();
+        let _ = base;
+        tokio::time::sleep(Duration::from_millis(500)).await;
+        let _ = t;
+      }
+      drop(a);
+      drop(others);
+      timed_term(&ctx, &mut out).await;
+      if out.term_ms > 2500 {
+        out.violations.push(("term-waits-for-retry-interval".into(), format!("term() took {} ms while a connecter with RECONNECT_IVL={} ms was waiting to retry", out.term_ms, c.reconnect_ivl)));
+      }
+    }
     Kind::CloseWhileHandshaking { term_only } => {
       let Ok(l) = std::net::TcpListener::bind("127.0.0.1:0") else {
         out.skipped = Some("no listener".into());
@@ -311,6 +371,12 @@ fn cells(tier: Tier) -> Vec<Cell> {
       Kind::RebindIpc,
       Kind::CloseWhileRetrying { term_only: false },
       Kind::CloseWhileRetrying { term_only: true },
+      Kind::CloseWhileRetryingAfterBusEvent { term_only: false, event: BusEvent::OtherSocketCloses },
+      Kind::CloseWhileRetryingAfterBusEvent { term_only: true, event: BusEvent::OtherSocketCloses },
+      Kind::CloseWhileRetryingAfterBusEvent { term_only: false, event: BusEvent::OtherSocketBinds },
+      Kind::CloseWhileRetryingAfterBusEvent { term_only: true, event: BusEvent::OtherSocketBinds },
+      Kind::CloseWhileRetryingAfterBusEvent { term_only: false, event: BusEvent::OtherSocketsConnectInproc },
+      Kind::CloseWhileRetryingAfterBusEvent { term_only: true, event: BusEvent::OtherSocketsConnectInproc },
       Kind::CloseWhileHandshaking { term_only: false },
       Kind::CloseWhileHandshaking { term_only: true },
       Kind::TermWithBlockedRecv,
@@ -320,9 +386,11 @@ fn cells(tier: Tier) -> Vec<Cell> {
       let ivls: Vec<i32> = match (kind, tier) {
         (Kind::CloseWhileRetrying { .. }, Tier::Thorough) => vec![10, 100, 1000],
         (Kind::CloseWhileRetrying { .. }, Tier::Quick) => vec![20],
+        (Kind::CloseWhileRetryingAfterBusEvent { .. }, Tier::Thorough) => vec![6000, 15000],
+        (Kind::CloseWhileRetryingAfterBusEvent { .. }, Tier::Quick) => vec![6000],
         _ => vec![50],
       };
-      if tier == Tier::Quick && pair.0 != SocketType::Push && matches!(kind, Kind::RebindIpc | Kind::RebindTcp { with_peer: false }) {
+      if tier == Tier::Quick && pair.0 != SocketType::Push && matches!(kind, Kind::RebindIpc | Kind::RebindTcp { with_peer: false } | Kind::CloseWhileRetryingAfterBusEvent { .. }) {
         continue;
       }
       for reconnect_ivl in ivls {
@@ -335,7 +403,7 @@ fn cells(tier: Tier) -> Vec<Cell> {
 
 pub fn real_sub(tier: Tier) -> Sub {
   let mut sub = Sub::new("close-term-real-resources", "E4");
-  sub.rule = "case = one real-time execution per (situation x socket pair x RECONNECT_IVL) cell on loopback tcp / ipc; non-trivial = the cell was not skipped; oracle: close() and term() return within 5 s (term's own straggler timeout is 10 s), zero actors registered afterwards, the tcp port / ipc path can be bound again, no connection attempt arrives after term(), a blocked recv() is released".into();
+  sub.rule = "case = one real-time execution per (situation x socket pair x RECONNECT_IVL) cell on loopback tcp / ipc; non-trivial = the cell was not skipped; oracle: close() and term() return within 5 s (term's own straggler timeout is 10 s), zero actors registered afterwards, the tcp port / ipc path can be bound again, no connection attempt arrives after term(), a blocked recv() is released; with a connecter waiting out a long retry interval term() returns within 2.5 s".into();
   let list = cells(tier);
   sub.bounds = json!({"cells": list.len()});
   sub.notes.push("a violation in a real-clock cell is reported only if it shows again when the cell is executed a second time; E4 cells are real-clock executions: the matrix is enumerated completely, the schedules inside a cell are not".into());
